@@ -280,6 +280,24 @@ def discharge(axioms, pc, goal, use_cvc5_fallback=True, also_cvc5=False, extra_a
     else:
         res["verdict"] = "unknown"
         res["reason"] = s.reason_unknown()
+        # solver instability guard: retry with other seeds before giving up (verdicts must not flip under load)
+        for extra_seed in (1, 2):
+            s2 = z3.Solver()
+            s2.set("timeout", Z3_TIMEOUT_MS)
+            s2.set("random_seed", 7919 * extra_seed)
+            for f in fs:
+                s2.add(f)
+            t1 = time.time()
+            r2 = s2.check()
+            res["seconds"] += time.time() - t1
+            if r2 == z3.unsat:
+                res["verdict"] = "discharged"
+                res["backend"] = "z3(retry)"
+                break
+            if r2 == z3.sat:
+                res["verdict"] = "refuted"
+                res["model"] = s2.model()
+                break
     if (res["verdict"] == "unknown" and use_cvc5_fallback) or also_cvc5:
         smt2 = "(set-logic ALL)\n" + s.to_smt2().replace("(check-sat)", "") + "\n(check-sat)\n"
         cres, cdt = run_cvc5(smt2, CVC5_TIMEOUT_MS)
